@@ -20,7 +20,7 @@
 //	ok-variant signed by the set in force must be accepted (else harness error)
 //
 // NEO / NEO N3. Trust root: genesis header index 5, NextConsensus = script hash of A (3-of-4). Events: header
-// index ∈ {3,5,8,12} × NextConsensus ∈ {A,B,C} × witness script ∈ {A,B,C} × signatures ∈ {ok, under, dup,
+// index ∈ {3,5,8,12,20} × NextConsensus ∈ {A,B,C} × witness script ∈ {A,B,C} × signatures ∈ {ok, under, dup,
 // reordered, foreign, badsig, all-n} plus two-header batches; all sequences to depth quick 3 / thorough 4.
 //
 //	tracked (index, NextConsensus) changes ⇒ some submitted header has exactly the new (index, NextConsensus),
@@ -471,7 +471,7 @@ func neoPart(k neoKit) mc.Stats {
 		return neoHdr{index, next, script, vn, distinctGood(l)}, k.header(index, next, script, l, salt)
 	}
 	vnames := []string{"ok", "under", "tail", "all", "dup", "reordered", "foreign", "badsig"}
-	for _, idx := range []uint32{3, 5, 8, 12} {
+	for _, idx := range []uint32{3, 5, 8, 12, 20} {
 		for next := 0; next < 3; next++ {
 			for script := 0; script < 3; script++ {
 				for _, vn := range vnames {
@@ -631,6 +631,23 @@ func neo3Kit() neoKit {
 	return k
 }
 
+func neo3LegacyKit() neoKit {
+	const magic = 0x334f454e
+	out := polyenv.Key(399)
+	sets := []*on.Neo3LSet{on.NewNeo3LSet(3, polyenv.KeysFrom(300, 4), out), on.NewNeo3LSet(2, polyenv.KeysFrom(310, 3), out), on.NewNeo3LSet(3, polyenv.KeysFrom(320, 4), out)}
+	k := neoKit{name: "neo3legacy", router: utils.NEO3_LEGACY_ROUTER, chain: 43, extra: on.MagicBytes(magic)}
+	for _, s := range sets {
+		k.m = append(k.m, s.M)
+		k.n = append(k.n, len(s.Pairs))
+		k.hash = append(k.hash, string(s.Hash.ToByteArray()))
+	}
+	k.header = func(index uint32, next, script int, list []on.Sig, salt uint64) []byte {
+		h, msg := on.Neo3LHeaderUnsigned(index, sets[next].Hash, salt, magic)
+		return on.Neo3LHeaderBytes(h, sets[script].Sign(msg).Invocation(list), sets[script].Script)
+	}
+	return k
+}
+
 func add(a *mc.Stats, b mc.Stats) {
 	a.States += b.States
 	a.Transitions += b.Transitions
@@ -642,7 +659,7 @@ func add(a *mc.Stats, b mc.Stats) {
 
 func main() {
 	r = ev.Start("C31", "model_checking")
-	r.Require("ont:accept", "ont:reject", "ont:resubmitted-height", "neo:change", "neo:no-change", "neo3:change", "neo3:no-change")
+	r.Require("ont:accept", "ont:reject", "ont:resubmitted-height", "neo:change", "neo:no-change", "neo3:change", "neo3:no-change", "neo3legacy:change", "neo3legacy:no-change")
 	vals = polyenv.Keys(4)
 	polyenv.Setup(0, vals)
 	polyenv.InstallHeightLedger()
@@ -651,7 +668,7 @@ func main() {
 	so := ontPart()
 	add(&total, so)
 	per["ont"] = map[string]any{"states": so.States, "transitions": so.Transitions, "max_depth": so.MaxDepth, "per_depth": so.PerDepth, "fixpoint": !so.DepthCapped && !so.Truncated}
-	for _, k := range []neoKit{neoKitLegacy(), neo3Kit()} {
+	for _, k := range []neoKit{neoKitLegacy(), neo3Kit(), neo3LegacyKit()} {
 		s := neoPart(k)
 		add(&total, s)
 		per[k.name] = map[string]any{"states": s.States, "transitions": s.Transitions, "max_depth": s.MaxDepth, "per_depth": s.PerDepth, "fixpoint": !s.DepthCapped && !s.Truncated}
@@ -661,7 +678,7 @@ func main() {
 	}
 	fmt.Println("per-router:", per)
 	r.Assume("ECDSA P-256 / SHA-256 are sound", "ONT headers carry no parent linkage check in the contract: heights are independent events",
-		"NEO N3 legacy router (same code modulo client library) is not driven")
+		"NEO N3 legacy router is driven with headers built by the legacy client library")
 	r.Finish(map[string]any{
 		"rule":                          "ONT: header stored ⇒ ≥ceil(|P|/3) distinct valid members of P = peers(greatest recorded key height < h); recorded peer sets == configs of accepted headers. NEO/N3: tracked change ⇒ index higher ∧ witness script == tracked ∧ ≥m distinct valid signatures",
 		"states":                        total.States,
